@@ -1,5 +1,6 @@
 import AbraModel.Assign
 import AbraModel.Drv.Util
+import AbraModel.Drv.Names
 /- Driver for `assignDecision`: `assign <target> <captured 0|1> <op> <old> <rhs>`
    target ∈ {let,var,for,match,param,lamparam,elem,field,nonvar}; op ∈ {eq,add,sub,mul,div,mod};
    old/rhs integers or `-` (decision only).
@@ -24,6 +25,58 @@ private def parseOp : String → Option AOp
   | "eq" => some .eq | "add" => some .add | "sub" => some .sub
   | "mul" => some .mul | "div" => some .div | "mod" => some .mod
   | _ => none
+
+/-- the answer for a target already determined -/
+private def answerFor (tgt : Target) (op : AOp) (old rhs : String) : String :=
+  match assignDecision tgt op with
+  | .diagImmutable => "diag immutable"
+  | .diagNotVar => "diag notvar"
+  | .diagCaptured => "diag captured"
+  | .crash => "crash"
+  | .accept =>
+    if old = "-" && rhs = "-" then "accept" else
+    match parseInt? old, parseInt? rhs with
+    | some a, some b =>
+      if !(Abra.I64.inRange a && Abra.I64.inRange b) then "bad-op" else
+      match run [7, a, 9] [] (assignCode op 1 b) with
+      | .ok [_, v, _] [] => "accept " ++ toString v
+      | .err .overflow => "accept err overflow"
+      | .err .divZero => "accept err divzero"
+      | _ => "bad-model"
+    | _, _ => "bad-op"
+
+private def parseBase : String → Option Base
+  | "let" => some .letB | "var" => some .varB | "for" => some .forB | "match" => some .matchB
+  | "param" => some .paramB | "lamparam" => some .lamParamB
+  | _ => none
+
+private def parseKinds (s : String) : Option (List (Nat × Base × Bool)) :=
+  (s.splitOn ",").mapM fun e =>
+    match e.splitOn ":" with
+    | [i, k, c] =>
+      match i.toNat?, parseBase k with
+      | some id, some b => if c = "1" then some (id, b, true) else if c = "0" then some (id, b, false) else none
+      | _, _ => none
+    | _ => none
+
+/-- `assignat <statements> <id:kind:captured,…> <op> <old> <rhs>`: the statements (grammar of the `names`
+    driver) contain the declarations and exactly one use `u<name>;` marking where the assignment to
+    `<name>` stands; the Names model decides which declaration the target means (the innermost
+    visible one), the decision table does the rest. -/
+def handleAssignAt : List String → String
+  | [body, kinds, o, old, rhs] =>
+    match parseNamesBody body, parseKinds kinds, parseOp o with
+    | some ss, some ks, some op =>
+      let w : Abra.Names.World String := { builtins := [], prelude := [], files := [] }
+      match (Abra.Names.resolveStmts w true [] [[]] ss).2 with
+      | [Abra.Names.Res.to (Abra.Names.Decl.loc id)] =>
+        match ks.find? (fun k => k.1 = id) with
+        | some (_, b, cap) => answerFor (.name b cap) op old rhs
+        | none => "bad-op"
+      | [Abra.Names.Res.unresolved] => "unresolved"
+      | _ => "bad-op"
+    | _, _, _ => "bad-op"
+  | _ => "bad-op"
 
 def handleAssign : List String → String
   | [t, c, o, old, rhs] =>
